@@ -450,3 +450,92 @@ def rule_simplify_neighbours(db, chk, cfg, rule="NEIGHBOURS.fresh"):
     if n < 8:
         raise AnalysisBroken("NEIGHBOURS.fresh: only %d distance recomputations examined" % n)
     return n
+
+
+# ---------------------------------------------------------------------------
+# EPS.degree: an epsilon is a length, a squared epsilon a squared length
+# ---------------------------------------------------------------------------
+
+_SQ = re.compile(r'(sqr|sqrd|squared|_sq$|Sq$)', re.I)
+_EPS = re.compile(r'(eps|epsilon|tolerance|max_dist|dist)', re.I)
+
+
+def _name_degree(nm):
+    if not nm or not _EPS.search(nm):
+        return None
+    return 2 if _SQ.search(nm) else 1
+
+
+def rule_eps_degree(db, chk, cfg, rule="EPS.degree"):
+    """Dimension of the tolerance handed from one path utility to the next: a parameter called epsilon is a length (degree 1), one
+    called epsSqrd / max_dist_sqrd a squared length (degree 2).  The degree of every argument bound to such a parameter is derived
+    from its definition - Sqr(x) and x*x double the degree, DistanceSqr / PerpendicDistFromLineSqrd are squared lengths, a local
+    has the degree of its initialiser - and must be the parameter's: squaring twice (or not at all) changes the threshold from
+    epsilon to epsilon^2 (or its root)."""
+    n = 0
+
+    def deg(e, depth=0):
+        e0 = strip(e)
+        k = e0.get("kind")
+        if depth > 6:
+            return None
+        if k == "DeclRefExpr":
+            rd = e0.get("referencedDecl", {})
+            d = db.by_id.get(rd.get("id"))
+            if d is not None and d.get("kind") == "VarDecl":
+                init = [c for c in kids(d) if isinstance(c, dict) and c.get("kind")]
+                if init:
+                    r = deg(init[-1], depth + 1)
+                    if r is not None:
+                        return r
+            return _name_degree(rd.get("name"))
+        if k in ("CXXStaticCastExpr", "CStyleCastExpr", "CXXFunctionalCastExpr") and kids(e0):
+            return deg(kids(e0)[-1], depth + 1)
+        if k in ("CallExpr", "CXXMemberCallExpr"):
+            nm = db.callee(e0)[0]
+            a = db.call_args(e0)
+            if nm == "Sqr" and a:
+                r = deg(a[0], depth + 1)
+                return 2 * r if r is not None else None
+            if nm in ("DistanceSqr", "PerpendicDistFromLineSqrd", "DistanceFromLineSqrd"):
+                return 2
+            if nm in ("Distance", "Length"):
+                return 1
+            if nm in ("sqrt",) and a:
+                r = deg(a[0], depth + 1)
+                return r // 2 if r is not None and r % 2 == 0 else None
+            return None
+        if k == "BinaryOperator" and e0.get("opcode") == "*":
+            a, b = deg(kids(e0)[0], depth + 1), deg(kids(e0)[1], depth + 1)
+            if a is not None and b is not None:
+                return a + b
+            return a if b is None and strip(kids(e0)[1]).get("kind") in ("FloatingLiteral", "IntegerLiteral") else (
+                b if a is None and strip(kids(e0)[0]).get("kind") in ("FloatingLiteral", "IntegerLiteral") else None)
+        return None
+
+    for f in db.funcs:
+        if f.is_pattern or f.body is None or not f.file or not ("/clipper2/" in f.file or "/Clipper2Lib/src/" in f.file):
+            continue
+        for c in walk(f.body):
+            if c.get("kind") not in ("CallExpr", "CXXMemberCallExpr"):
+                continue
+            g = db.callee_func(c)
+            if g is None or not g.file or not ("/clipper2/" in g.file or "/Clipper2Lib/src/" in g.file):
+                continue
+            args = db.call_args(c)
+            for i, p0 in enumerate(g.params):
+                want = _name_degree(p0.get("name"))
+                if want is None or i >= len(args) or "double" not in (qt(p0) or ""):
+                    continue
+                got = deg(args[i])
+                if got is None:
+                    continue
+                n += 1
+                ok = got == want
+                chk.instance(rule, {"caller": f.qual, "callee": g.qual, "parameter": p0.get("name"), "argument": canon(args[i])[:40], "degree": got, "cfg": cfg}, ok=ok)
+                if not ok:
+                    chk.violation(rule, f.qual, "%s|%s" % (g.name, p0.get("name")),
+                                  "`%s`: parameter '%s' of %s is a %s, but the argument `%s` is a %s (degree %d): the threshold applied is not the caller's epsilon"
+                                  % (canon(c)[:70], p0.get("name"), g.name, "squared length" if want == 2 else "length", canon(args[i])[:40],
+                                     {1: "length", 2: "squared length"}.get(got, "length to the power %d" % got), got), where(c), cfg=cfg)
+    return n
